@@ -24,7 +24,7 @@
 //   run <seed> <steps> <target> <x0 n>   init + steps, 8 runs: fresh, fresh again, RE-INITIALISED used object, an object
 //        that was used on a DIFFERENT problem (other dimension, start, seed) and then initialised, 3 exact
 //        rescalings of f, (all with the same seed); prints the final solution, a digest and the oracle verdicts
-//   coeffs <kind> <n> <lambda> <mu> <recomb>   strategy constants of the initialised object (compared bit for bit with the
+//   coeffs <kind> <n> <lambda> <mu> <recomb> [key=value ...]   strategy constants of the initialised object (compared bit for bit with the
 //        formulas regenerated from the C++, Gen/CMAParams.lean) + admissibility oracle
 //   cmatrace <seed> <steps> <x0 n>   CMA run printing, per step, everything updatePopulation consumed and produced
 //   ecmatrace | cmsatrace | cemtrace <seed> <steps> <x0 n>   same for ElitistCMA::step, CMSA::updatePopulation, CrossEntropyMethod
@@ -276,7 +276,7 @@ template<class Fn> static void initOpt(Config const& c, OptBase& o, Fn& f, RealV
 		if(c.p.size() >= 4) m.recombinationType() = (CMA::RecombinationType)c.recomb();
 		if(mode == "full"){
 			std::size_t lambda = c.lambda() ? c.lambda() : CMA::suggestLambda(n);
-			std::size_t mu = c.lambda() ? c.mu() : CMA::suggestMu(lambda, m.recombinationType());
+			std::size_t mu = c.mu() ? c.mu() : CMA::suggestMu(lambda, m.recombinationType());
 			m.init(f, x0, lambda, mu, c.sigma() > 0 ? c.sigma() : 1.0 / std::sqrt((double)n), C0);
 		}else{
 			if(c.setsLambda()) m.setLambda(c.lambda());
@@ -289,7 +289,7 @@ template<class Fn> static void initOpt(Config const& c, OptBase& o, Fn& f, RealV
 		CMSA& m = static_cast<CMSA&>(o);
 		if(mode == "full"){
 			std::size_t lambda = c.lambda() ? c.lambda() : 4 * n;
-			std::size_t mu = c.lambda() ? c.mu() : lambda / 4;
+			std::size_t mu = (c.mu() && c.mu() < lambda) ? c.mu() : lambda / 4;
 			m.init(f, x0, lambda, mu, c.sigma() > 0 ? c.sigma() : 1.0 / std::sqrt((double)n), C0);
 		}else{
 			if(c.setsLambda()) m.setLambda(c.lambda());
@@ -486,13 +486,23 @@ static Trace runOnce(Config const& c, Holder& h, Obj& f, int phi, unsigned seed,
 	return t;
 }
 
-// the object is first used on a DIFFERENT problem (other dimension, start, seed; same configuration), so that every piece
-// of per-run state has a stale value of another shape when init is called for the run proper
+// the object is first used on a DIFFERENT problem (other dimension -- smaller or larger --, start, seed) and its per-run
+// state is then overwritten through the setters that act on the current run only (lower bound, initial covariance, step
+// size, variance, population sizes after init): every piece of per-run state has a stale value of another shape when init
+// is called for the run proper.  Options that persist across init by design (setLambda/setMu, recombination type,
+// activeUpdate, penalty factor, noise type, initial sigma) are the same as in the run proper.
 static void preUse(Config const& c, Holder& h, std::size_t n, unsigned seed){
-	Obj g; g.kind = 2; g.n = (n == 1) ? 2 : n - 1;
+	Obj g; g.kind = 2; g.n = (seed % 2 == 1) ? n + 1 : ((n == 1) ? 2 : n - 1);
 	RealVector y0(g.n, 0.75);
+	Config pc = c;
+	pc.o.erase("mid");
+	if(c.kind == "cmsa"){ pc.o["init"] = "full"; pc.o["cov0"] = "dense"; }      // CMSA's long overload sets no persistent flag
+	if(c.kind == "cma"){ pc.o["lb"] = "0.5"; if(c.initMode() == "full") pc.o["cov0"] = "dense"; }
 	seedRun(h, seed + 17u, 99u);
-	initOpt(c, *h.o, g, y0);
+	initOpt(pc, *h.o, g, y0);
+	if(c.kind == "ecma") static_cast<ElitistCMA&>(*h.o).sigma() = 8.0;
+	if(c.kind == "vdcma"){ VDCMA& m = static_cast<VDCMA&>(*h.o); m.setSigma(8.0); m.lambda() += 3; }
+	if(c.kind == "cem"){ CrossEntropyMethod& m = static_cast<CrossEntropyMethod&>(*h.o); m.setVariance(7.0); m.populationSize() += 5; }
 	for(int s = 0; s != 3; ++s) h.o->step(g);
 }
 
@@ -510,6 +520,12 @@ static void coeffsOp(std::vector<std::string> const& t, std::ostringstream& out)
 	Config c; c.kind = t.at(1);
 	std::size_t n = std::stoul(t.at(2)), lambda = std::stoul(t.at(3)), mu = std::stoul(t.at(4)); int rec = std::stoi(t.at(5));
 	c.p = {(double)lambda, (double)mu, (double)rec, 0.0};
+	// optional configuration options: the constants must not depend on the construction mode or on the init overload
+	for(std::size_t k = 6; k < t.size(); ++k){
+		std::size_t eq = t[k].find('=');
+		if(eq == std::string::npos) throw std::runtime_error("bad-op");
+		c.o[t[k].substr(0, eq)] = t[k].substr(eq + 1);
+	}
 	Obj f; f.kind = 2; f.n = n;
 	RealVector x0(n, 0.0);
 	Holder hold(c); std::unique_ptr<OptBase>& o = hold.o;
